@@ -116,7 +116,16 @@ def _last_value(c, prog):
     return bool(drop), c, [e for i, e in enumerate(prog) if i not in drop]
 
 
-FEATURES = {"layout": _layout, "twice": _twice, "last_value": _last_value}
+def _full_form(c, prog):
+    """the program sets a rotation matrix of fewer than 9 entries on a transform whose card has the full form of 13
+    values (12 numbers and the direction flag): the flag node is kept behind the shorter matrix for the first write.
+    Ablation: without these edits."""
+    drop = {i for i, e in enumerate(prog) if e.get("kind") == "tr_rotation" and len(e.get("matrix", [])) < 9
+            and _tr_values(c, e["orig"]) == 13}
+    return bool(drop), c, [e for i, e in enumerate(prog) if i not in drop]
+
+
+FEATURES = {"layout": _layout, "twice": _twice, "last_value": _last_value, "full_form": _full_form}
 
 
 def rotation_trigger(case, check, name):
@@ -199,3 +208,7 @@ def amp_after_moved_value(case, check):
     if not hit:
         return False
     return check(dict(c, text="\n".join(out)), prog) is None
+
+
+def rotation_short_on_full_form(case, check):
+    return rotation_trigger(case, check, "full_form")
